@@ -638,11 +638,43 @@ def dynrange_stream(ctx):
                 return
 
 
+def invalid_mode_stream(ctx):
+    """a cutoff rule that does not exist is rejected, never silently replaced by another rule"""
+    import symmray as sr
+
+    rng = random.Random(ctx.seed * 31 + 13)
+    spec = gen_matrix_spec(rng)
+    x = build_matrix(spec)
+    ref = {}
+    for mode in MODES:
+        try:
+            _, s_, _ = sr.linalg.svd_truncated(x.copy(), cutoff=0.3, cutoff_mode=mode, absorb=None)
+            ref[mode] = sorted((repr(c), int(np.size(b))) for c, b in s_.blocks.items())
+        except Exception as e:  # noqa
+            ctx.violation(f"svd_truncated(cutoff_mode={mode}) raised {type(e).__name__}: {e}", dict(matrix=spec, mode=mode),
+                          op="svd_truncated")
+            return
+    for bad in (0, 7, -1, "no-such-rule", None, 2.5):
+        ctx.evaluations += 1
+        ctx.stat("invalid_cutoff_mode")
+        try:
+            _, s_, _ = sr.linalg.svd_truncated(x.copy(), cutoff=0.3, cutoff_mode=bad, absorb=None)
+        except Exception:  # noqa
+            continue
+        got = sorted((repr(c), int(np.size(b))) for c, b in s_.blocks.items())
+        ctx.violation(f"svd_truncated accepted the non-existent cutoff_mode={bad!r} and truncated by some other rule "
+                      f"(kept {sum(n for _, n in got)} values; the six rules keep "
+                      f"{[sum(n for _, n in ref[m]) for m in MODES]})", dict(matrix=spec, cutoff=0.3, mode=repr(bad)),
+                      op="svd_truncated")
+        return
+
+
 def run(ctx):
     import symmray as sr  # noqa
     from symmray.linalg import calc_sub_max_bonds
 
     dynrange_stream(ctx)
+    invalid_mode_stream(ctx)
 
     quick = ctx.tier == "quick"
     nchunks = 16
